@@ -8,6 +8,7 @@ mod c06;
 mod c09;
 mod c10;
 mod c11;
+mod c12;
 mod c13;
 mod c15;
 mod c16;
@@ -25,6 +26,7 @@ fn gen_all(id: &str, seed: u64, n: usize, thorough: bool) -> Vec<String> {
         "C10" => c10::gen_cases(seed, n, thorough),
         "C15" => c15::gen_cases(seed, n, thorough),
         "C09" => c09::gen_cases(seed, n, thorough),
+        "C12" => c12::gen_cases(seed, n, thorough),
         _ => panic!("unknown property {}", id),
     }
 }
@@ -39,6 +41,7 @@ fn run_line(id: &str, line: &str) -> String {
         "C10" => c10::run_line(line),
         "C15" => c15::run_line(line),
         "C09" => c09::run_line(line),
+        "C12" => c12::run_line(line),
         _ => "UNKNOWN-PROPERTY".to_string(),
     });
     match r {
